@@ -9,7 +9,7 @@ import itertools
 import numpy as np
 import pandas as pd
 
-from harness.common import contains, eqv, neq
+from harness.common import cells_same, contains, eqv, neq
 from symx import Obligation, Violation
 from symx.rebind import rebound
 
@@ -145,7 +145,10 @@ def _h_transform(ctx, m, gi, nan_mode, output_dtype, dropna, probe, props):
             rows = [ctx.real("x1", feature_value=True)]
         elif probe == "0":
             rows = []
-        X = pd.DataFrame({"f": column(ctx, rows), "other": list(range(len(rows)))})
+        X = pd.DataFrame({"f": column(ctx, rows), "other": list(range(len(rows))),
+                          # non-feature columns holding missing values (seed5-C07: a frame-wide fillna in transform)
+                          "other_nan": [float("nan") if i % 2 == 0 else float(i) for i in range(len(rows))],
+                          "other_obj": pd.Series([None if i % 2 == 0 else "x" for i in range(len(rows))], dtype=object)})
         X.index = [10 + i for i in range(len(rows))]
         x_in = X.copy()
         any_nan_row = probe == "2nan"
@@ -196,6 +199,8 @@ def _h_transform(ctx, m, gi, nan_mode, output_dtype, dropna, probe, props):
         if "C07" in props:
             ctx.require(list(out.index) == list(x_in.index) and list(out.columns) == list(x_in.columns), "C07.index-columns", "index/columns changed")
             ctx.require(list(out["other"]) == list(x_in["other"]), "C07.non-feature-column", "non-feature column changed")
+            for oc in ("other_nan", "other_obj"):
+                ctx.require(cells_same(list(out[oc]), list(x_in[oc])), "C07.non-feature-column", f"non-feature column {oc} (with missing values) changed: {list(out[oc])!r}")
             for a, b in zip(list(X["f"]), list(x_in["f"])):
                 same = (a is b) or (isinstance(a, float) and a != a and b != b) or bool(eqv(a, b))
                 ctx.require(same, "C07.input-mutated", "copy=True but the caller's X was modified")
